@@ -89,7 +89,7 @@ Definition is_nil_b {A} (l : list A) : bool := match l with [] => true | _ => fa
 
 Definition local_clean_b (s : schema) : bool :=
   (negb allow_null || (is_nil_b (s_all_of s) && is_nil_b (s_any_of s) && is_none (s_not s))) &&
-  is_none (s_ref s) && Z.eqb (s_format s) 0 && negb (s_nullable s) &&
+  is_none (s_ref s) && (Z.eqb (s_format s) 0 || (contains k_number (s_types s) || contains k_integer (s_types s))) && negb (s_nullable s) &&
   forallb (fun e => jd_b (S (goval_depth e)) e) (s_enum s) &&
   (Z.eqb (s_pattern s) 0 || o_re_ok OR (s_pattern s)) &&
   (* arrays *)
@@ -97,7 +97,7 @@ Definition local_clean_b (s : schema) : bool :=
   negb (match s_items_tuple s with Some [] => true | _ => false end) &&
   negb (match s_add_items s with Some (false, Some _) => true | _ => false end) &&
   (* objects *)
-  is_nil_b (s_pat_props s) && forallb (fun kp => is_none (s_default (snd kp))) (s_props s) && nodup_b (map fst (s_props s)) &&
+  is_nil_b (s_pat_props s) && forallb (fun kp => is_none (s_default (snd kp)) || negb (existsb (Z.eqb (fst kp)) (s_required s))) (s_props s) && nodup_b (map fst (s_props s)) &&
   negb (match s_add_props s with Some (false, Some _) => true | _ => false end) &&
   (* composition *)
   is_nil_b (s_one_of s) && nodup_b (map fst (s_deps s)) &&
@@ -113,7 +113,7 @@ Proof.
     split; [revert Ha; destruct (s_all_of s); [reflexivity | discriminate]|].
     split; [revert Hb; destruct (s_any_of s); [reflexivity | discriminate] | revert Hc; destruct (s_not s); [discriminate | reflexivity]]. }
   split; [revert L14; destruct (s_ref s); [discriminate | reflexivity]|].
-  split; [apply Z.eqb_eq; exact L13|].
+  split; [apply orb_true_iff in L13; destruct L13 as [E | E]; [left; apply Z.eqb_eq; exact E | right; exact E]|].
   split; [apply negb_true_iff; exact L12|].
   split; [apply (forallb_Forall _ _ _ (fun e He => jd_b_sound _ e He) L11)|].
   split; [apply orb_true_iff in L10; destruct L10 as [E | E]; [left; apply Z.eqb_eq; exact E | right; exact E]|].
@@ -123,7 +123,9 @@ Proof.
     intros sa E. rewrite E in L7. discriminate. }
   split.
   { split; [revert L6; destruct (s_pat_props s); [reflexivity | discriminate]|].
-    split; [intros k ps Hin; pose proof (proj1 (forallb_forall _ _) L5 (k, ps) Hin) as E; cbn [snd] in E; destruct (s_default ps); [discriminate | reflexivity]|].
+    split; [intros k ps Hin Hd Hr; pose proof (proj1 (forallb_forall _ _) L5 (k, ps) Hin) as E; cbn [fst snd] in E;
+            apply orb_true_iff in E; destruct E as [E | E]; [destruct (s_default ps); [discriminate | apply Hd; reflexivity]|];
+            apply negb_true_iff in E; assert (E' : existsb (Z.eqb k) (s_required s) = true) by (apply existsb_exists; exists k; split; [exact Hr | apply Z.eqb_refl]); congruence|].
     split; [apply nodup_b_sound; exact L4|].
     intros sa E. rewrite E in L3. discriminate. }
   split.
